@@ -774,6 +774,11 @@ impl State {
                 }
                 None => "bad-op".into(),
             },
+            ["vlen"] => match self.stack.last() {
+                Some(Item::Val(v)) => format!("val {}", v.length()),
+                Some(Item::Avp(a)) => format!("avp {} {}", a.get_length(), a.get_padding()),
+                None => "-".into(),
+            },
             ["grp_new"] => {
                 self.stack.push(Item::Val(Grouped::new(vec![], self.dict.clone()).into()));
                 "ok".into()
